@@ -7,7 +7,7 @@ from asyncssh import public_key as PK
 from asyncssh.packet import SSHPacket, PacketDecodeError, UInt32, UInt64, String, Byte
 
 from vf.core import Ob, R, B
-from vf.rt import assume, pick, conc, cb
+from vf.rt import assume, pick, conc, cb, notrace
 
 SS = importlib.import_module('asyncssh.sshsig')
 
@@ -306,10 +306,92 @@ def sshsig_signed_data(ns_i: int, hi: int, hashed: bool) -> bool:
     return got == b'SSHSIG' + String(ns) + String(b'') + String(hn) + String(dig)
 
 
+# ---------------------------------------------------------------- real keys x signature algorithms (native execution)
+
+import asyncssh
+
+_RK = {}
+
+
+def _rkey(kind):
+    if kind not in _RK:
+        _RK[kind] = {'rsa': lambda: asyncssh.generate_private_key('ssh-rsa', key_size=1024),
+                     'ecdsa256': lambda: asyncssh.generate_private_key('ecdsa-sha2-nistp256'),
+                     'ecdsa384': lambda: asyncssh.generate_private_key('ecdsa-sha2-nistp384'),
+                     'ed25519': lambda: asyncssh.generate_private_key('ssh-ed25519'),
+                     'ed448': lambda: asyncssh.generate_private_key('ssh-ed448')}[kind]()
+    return _RK[kind]
+
+
+RKINDS = ['rsa', 'ecdsa256', 'ecdsa384', 'ed25519', 'ed448']
+
+
+def real_sig_matrix(kind: int, ai: int, flaw: int, pos: int, bi: int) -> bool:
+    """Real keys of every type x every signature algorithm they offer: the
+    signature verifies under the matching public key; it fails for another
+    message, another key, an algorithm name replaced by any other registered
+    name that denotes a different algorithm, a bit flipped at any position of
+    the blob, truncation or extension - and never raises."""
+    k = pick(RKINDS, kind)
+    with notrace():
+        key = _rkey(k)
+        algs = list(key.sig_algorithms)
+    alg = algs[conc(ai, 0, 5) % len(algs)]
+    fl = pick(['none', 'data', 'key', 'alg', 'flip', 'trunc', 'extend'], flaw)
+    pos = conc(pos, 0, 63)
+    bi = conc(bi, 0, 7)
+    with notrace():
+        msg = b'message to sign'
+        sig = key.sign(msg, alg)
+        pub = key.convert_to_public()
+        vkey, vmsg, blob = pub, msg, sig
+        same_alg_group = None
+        if fl == 'data':
+            vmsg = b'message to sigm'
+        elif fl == 'key':
+            vkey = asyncssh.generate_private_key('ssh-ed25519').convert_to_public() if k != 'ed25519' else _rkey('ed448').convert_to_public()
+        elif fl == 'alg':
+            others = [a for a in sorted(pub.all_sig_algorithms) if a != alg]
+            if not others:
+                return True
+            other = others[pos % len(others)]
+            p = SSHPacket(sig)
+            p.get_string()
+            blob = String(other) + p.get_remaining_payload()
+            # names that select the same hash for RSA denote the same algorithm (aliases): relabelling among them is not an alteration
+            h = lambda a: (b'512' in a, b'256' in a, b'384' in a, b'224' in a)
+            same_alg_group = k == 'rsa' and h(other) == h(alg)
+        elif fl == 'flip':
+            i = (pos * 7) % len(sig)
+            blob = sig[:i] + bytes([sig[i] ^ (1 << bi)]) + sig[i + 1:]
+        elif fl == 'trunc':
+            blob = sig[:(pos * 7) % len(sig)]
+        elif fl == 'extend':
+            blob = sig + b'\0'
+        try:
+            r = vkey.verify(vmsg, blob)
+        except Exception:
+            return False
+    if fl == 'none':
+        return r is True
+    if fl == 'alg' and same_alg_group:
+        return True
+    if fl == 'flip' and k.startswith('ecdsa'):
+        # DER-encoded (r, s) integers inside the blob have redundant encodings only if malformed: any change must still fail
+        return r is False
+    return r is False
+
+
 OBLIGATIONS = [
     Ob('verify_discipline', verify_discipline, sym=dict(alg_i=R(0, 5), flaw=R(0, 5), cut=R(0, 40)), shards=dict(flaw=[0, 1, 2, 3, 4, 5]), timeout=150,
        functions=[PK.SSHKey.verify, PK.SSHKey.sign],
        bounds='signature relabelled with 6 algorithm names (incl. registered sibling, x509v3- prefix, prefix of the name, empty); data/key changed; any single byte flipped; any truncation; trailing byte'),
+    Ob('real_sig_matrix', real_sig_matrix, sym=dict(ai=R(0, 5), pos=R(0, 63), bi=R(0, 7)),
+       shards=dict(kind=[0, 1, 3], flaw=[0, 1, 2, 3, 4, 5, 6], bi=[0, 7]),
+       thorough_shards=dict(kind=[0, 1, 2, 3, 4], flaw=[0, 1, 2, 3, 4, 5, 6], bi=[0, 1, 2, 3, 4, 5, 6, 7]),
+       timeout=300, thorough_timeout=900,
+       functions=[PK.SSHKey.verify, PK.SSHKey.sign, 'asyncssh.rsa.RSAKey.verify_ssh', 'asyncssh.ecdsa.ECDSAKey.verify_ssh', 'asyncssh.eddsa.EdDSAKey.verify_ssh'],
+       bounds='real RSA-1024 / ECDSA-256 / Ed25519 keys (thorough: + ECDSA-384, Ed448) x every signature algorithm of the key x {other message, other key, every other registered algorithm name, bit b flipped at 64 positions spread over the blob, 64 truncation points, trailing byte}'),
     Ob('cert_signature', cert_signature, sym=dict(pos=R(0, 200), ctype=R(0, 1)), shards=dict(flaw=[0, 1, 2, 3, 4]), timeout=250,
        functions=[PK.SSHOpenSSHCertificate.construct, PK.SSHOpenSSHCertificateV01._decode],
        bounds='user/host certificate (~150 bytes): bit flip at every byte position, truncation at every position, other signer, trailing byte'),
